@@ -92,8 +92,10 @@ def attribute(f):
             p.add("C03")
     if rules & MEMBER_RULES:
         p.add("C18")
-        if ev in IO_EVS:
-            p.add("C05")
+        if ev in IO_EVS or ev == "MonitorRun":
+            p.add("C05")        # a failed replica that is not detached (or a healthy one that is)
+        if ev == "Snapshot":
+            p.add("C13")        # who is (not) in service after a snapshot that failed on somebody
     if f.get("a", {}).get("oob"):
         p.add("C01")        # the controller's range check
     if rules & {"ReadOnly", "RoFresh", "WriteGate"}:
@@ -157,6 +159,102 @@ def context_of(f):
         n = len([m for m in pre.values() if m != "NONE"])
         ctx.append("members=%d" % n)
     return ",".join(ctx)
+
+
+# ---- scenarios from random walks of the specification itself (MCController, TLC -simulate)
+OP_RE = re.compile(r'^/\\ op = \[name \|-> "(\w+)"(?:, args \|-> \[(.*)\])?\]\s*$', re.M)
+
+
+def _tla_set(txt):
+    return re.findall(r'"(\w+)"', txt or "")
+
+
+def _tla_args(txt):
+    """flat record of strings / booleans / ints / sets of strings"""
+    out = {}
+    for m in re.finditer(r'(\w+) \|-> (\{[^}]*\}|"[^"]*"|TRUE|FALSE|-?\d+)', txt or ""):
+        k, v = m.group(1), m.group(2)
+        if v.startswith("{"):
+            out[k] = _tla_set(v)
+        elif v.startswith('"'):
+            out[k] = v.strip('"')
+        elif v in ("TRUE", "FALSE"):
+            out[k] = v == "TRUE"
+        else:
+            out[k] = int(v)
+    return out
+
+
+def walks_to_scenarios(behaviours, rf, first_id):
+    """TLC behaviours of MCController -> operation lists for the L1 driver.  Only the operation and
+    its fault arguments are taken; what the real system answers is judged by trace validation."""
+    scs = []
+    for i, text in enumerate(behaviours):
+        ops, pending, gated = [], None, set()
+        for st in re.split(r"^STATE_?\s*\d*.*$|^State \d+:.*$", text, flags=re.M):
+            m = OP_RE.search(st)
+            if not m or m.group(1) == "Init":
+                continue
+            name, a = m.group(1), _tla_args(m.group(2))
+            if pending is not None and not (name == "AddCommit" and a.get("a") == pending):
+                # something runs between the two sections of that add: hold it inside factory.Create
+                if not gated:
+                    ops.append({"ev": "AddBegin", "a": pending})
+                    gated.add(pending)
+                pending = None
+            if name == "Register":
+                ops.append({"ev": "Register", "a": a["a"], "sf": a.get("sf", False), "af": a.get("af", False)})
+            elif name == "Start":
+                ops.append({"ev": "Start", "a": a["a"], "cf": a.get("cf", False)})
+            elif name == "AddCheck":
+                if a["a"] not in gated:
+                    pending = a["a"]
+            elif name == "AddCommit":
+                if pending == a["a"]:
+                    ops.append({"ev": "Add", "a": a["a"], "cf": a.get("cf", False), "F": a.get("S", [])})
+                    pending = None
+                elif a["a"] in gated:
+                    ops.append({"ev": "AddEnd", "a": a["a"], "cf": a.get("cf", False), "F": a.get("S", [])})
+                    gated.discard(a["a"])
+            elif name == "RebuildCopy":
+                ops.append({"ev": "RebuildCopy", "a": a["a"], "src": a["src"]})
+            elif name == "VerifyRebuild":
+                ops.append({"ev": "Verify", "a": a["a"], "F": a.get("F", [])})
+            elif name == "RemoveReplica":
+                ops.append({"ev": "Remove", "a": a["a"]})
+            elif name == "SetMode":
+                ops.append({"ev": "SetMode", "a": a["a"], "mode": "ERR"})
+            elif name == "MonitorRun":
+                ops.append({"ev": "MonitorRun", "a": a["a"]})
+            elif name in ("Write", "Sync", "Unmap", "Read"):
+                if a.get("oob"):
+                    ops.append({"ev": ("Write" if name != "Read" else "Read") + "OOB", "kind": "beyond"})
+                else:
+                    ops.append({"ev": name, "F": a.get("A", []), "mode": ["err", "err", "drop", "stall"][(i + len(ops)) % 4]})
+            elif name == "Snapshot":
+                ops.append({"ev": "Snapshot", "name": a["name"], "F": a.get("S", [])})
+            elif name == "ReplicaRestart":
+                if a["a"] not in gated:      # (not while its own add is held inside factory.Create)
+                    ops.append({"ev": "ReplicaRestart", "a": a["a"]})
+        if pending is not None:
+            ops.append({"ev": "Add", "a": pending})
+        for g in sorted(gated):
+            ops.append({"ev": "AddEnd", "a": g})
+        ops.append({"ev": "Read"})
+        if len(ops) > 3:
+            scs.append({"id": first_id + i, "rf": rf, "n": rf + 1, "src": "tlc-simulate", "ops": ops})
+    return scs
+
+
+def sim_cfg(rf):
+    c = cfgd(RF=rf, Addr=addrs(rf + 1), MaxW=12, MaxSnap=3, InitRevs={1, 2},
+             Ops={"read", "sync", "seterr", "snapshot", "snapfail", "cpfail", "sigfail", "createfail", "oob"})
+    t = mc_cfg(c)
+    t = t.replace("SPECIFICATION Spec", "SPECIFICATION SimSpec")
+    t = t.replace("VIEW View\n", "")
+    t = re.sub(r"INVARIANTS .*\n", "", t)
+    t = re.sub(r"PROPERTIES .*\n", "", t)
+    return t
 
 
 DATA_RULES = {"Node.log", "InServiceHoldAcked", "ReadData", "ReadFresh"}
@@ -289,6 +387,14 @@ def run(prop, tier, seed, replay=None, embed=False):
                                     distinct=r["distinct"], generated=r["generated"], depth=r["depth"],
                                     wall_s=round(r["wall"], 1)))
                 log("[mc] %s distinct=%d generated=%d %.0fs" % (prop, r["distinct"], r["generated"], r["wall"]))
+            if prop in ("C02", "C03"):
+                # the majority / quorum arithmetic for every number of replicas (Apalache, unbounded
+                # integers); the control invariant (>= instead of >) must be refuted
+                if run_apalache("QuorumArith", "Inv") != "ok" or run_apalache("QuorumArith", "WrongGE") != "violated":
+                    raise HarnessError("QuorumArith.tla: unexpected Apalache verdict")
+                mc_runs.append(dict(module="QuorumArith", tool="apalache", invariants="Intersect NonEmpty HalfFails "
+                                    "QuorumMoreThanHalf MinorityNoQuorum VariantDiffers", domain="all n, rf (unbounded integers)",
+                                    control="WrongGE refuted"))
             if not quick:
                 for bug, expect in MC[prop]["mutants"]:
                     c = dict(MC[prop]["quick"][-1])
@@ -316,6 +422,20 @@ def run(prop, tier, seed, replay=None, embed=False):
             nproc = min(NCPU * 2, 32)
             per = 2 if quick else 24
             length = 16 if quick else 30
+            walk_files = {}
+            directed = [l for l in open(os.path.join(VERIF, "scenarios", "controller_directed.ndjson")).read().split("\n") if l.strip()]
+            if not embed:
+                # scenarios generated by the specification: random walks of MCController per RF
+                nw = 4 if quick else 60
+                for j, rf_ in enumerate((2, 3)):
+                    beh = run_tlc_simulate("MCController", sim_cfg(rf_), nw, 22 if quick else 34, seed * 10 + rf_)
+                    scs = walks_to_scenarios(beh, rf_, 500000 + rf_ * 1000)
+                    wf = os.path.join(work, "walks_rf%d.ndjson" % rf_)
+                    with open(wf, "w") as f:
+                        for sc in scs:
+                            f.write(json.dumps(sc) + "\n")
+                    if scs:
+                        walk_files[20 + j] = wf     # two of the workers also run the walks
             if embed:
                 nproc, per = (12, 1) if quick else (24, 8)
                 if prop == "C01":
@@ -333,8 +453,15 @@ def run(prop, tier, seed, replay=None, embed=False):
                        "-profile", PROFILE[prop], "-rf", str(rf),
                        # embedded parts get their own loopback subnets (127.(10+worker).x)
                        "-worker", str(i + 1 + ({"C01": 40, "C07": 60}.get(prop, 0) if embed else 0))]
-                if i == 0 and not embed:      # hand-written / counterexample-derived interleavings
-                    cmd += ["-in", os.path.join(VERIF, "scenarios", "controller_directed.ndjson")]
+                extra = []
+                if not embed:      # hand-written / counterexample-derived interleavings, spread over the workers
+                    extra += [l for k, l in enumerate(directed) if k % nproc == i]
+                if i in walk_files:           # random walks of MCController
+                    extra += [l for l in open(walk_files[i]).read().split("\n") if l.strip()]
+                if extra:
+                    xf = os.path.join(work, "in%d.ndjson" % i)
+                    open(xf, "w").write("\n".join(extra) + "\n")
+                    cmd += ["-in", xf]
                 cmds.append(cmd)
         res = run_parallel(cmds, timeout=900 if quick else 7200)
         for (rc, out), c in zip(res, cmds):
@@ -442,6 +569,8 @@ def run(prop, tier, seed, replay=None, embed=False):
             print("  rule=%s site=%s context=%s" % (",".join(s["rule"]), s["site"], s["context"]))
         log("[%s] %s: %d executions, %d records, %d violations, %d known, %d other-property failures, %.0fs" % (
             prop, tier, traces, records, len(violations), len(known), len(others), time.time() - t0))
+        for o in others[:4]:
+            log("[other-property failure] t=%s seq=%s %s -> %s" % (o["t"], o["seq"], json.dumps(o["sig"]), o["properties"]))
         if unexplained and not violations:
             raise HarnessError("specification has no step for %d record(s), first: %s"
                                % (len(unexplained), json.dumps(unexplained[0])[:3000]))
